@@ -2001,6 +2001,8 @@ Qed.
 
 Lemma run_cons o l s : run (o :: l) s = run l (step s o).
 Proof. reflexivity. Qed.
+Lemma run_nil s : run [] s = s.
+Proof. reflexivity. Qed.
 Lemma run_app l1 l2 s : run (l1 ++ l2) s = run l2 (run l1 s).
 Proof. unfold run. apply fold_left_app. Qed.
 
@@ -2020,7 +2022,7 @@ Proof.
   change [Start; Run n; Resolve n; Run n; Answer n; Run n] with ([Start; Run n; Resolve n; Run n] ++ [Answer n; Run n]).
   rewrite run_app.
   set (s4' := run [Start; Run n; Resolve n; Run n] (step s ChClose)).
-  unfold run. cbn [fold_left]. subst s4'.
+  rewrite !run_cons. rewrite run_nil. subst s4'.
   rewrite <- Sc0 in Sc.
   remember (step s ChClose) as s0 eqn:Hs0. clear Hs0.
   pose proof (fresh_call_connects s0 I0 Q0 Cn0 Sc) as F. cbv zeta in F. rewrite Ln0, Lc0 in F. fold n c in F.
@@ -2033,9 +2035,6 @@ Proof.
   { simpl step. rewrite PH, V, GK. simpl andb. cbv iota. rewrite mark_callers. unfold updk. simpl. apply upd_length. }
   remember (step s4 (Answer n)) as s5 eqn:Hs5. clear Hs5.
   destruct (fc_done s5 n _ c G5 eq_refl eq_refl eq_refl eq_refl ltac:(lia)) as (PH6 & P6 & Cr6 & Lv6).
-  repeat split.
-  - congruence.
-  - congruence.
-  - exact PH6.
-  - rewrite live_getc, Lv6. unfold lives. rewrite C5. fold (lives s4). rewrite <- live_getc. exact LC.
+  split; [rewrite Cr6, Cr5, Cr, Cr0; reflexivity|]. split; [rewrite P6, P5; exact Pr|]. split; [exact PH6|].
+  rewrite live_getc, Lv6. unfold lives. rewrite C5. fold (lives s4). rewrite <- live_getc. exact LC.
 Qed.
